@@ -85,6 +85,16 @@ CHECKS["C07"] = dict(
     design_ref="DESIGN.md section 2, C07",
 )
 
+CHECKS["C09"] = dict(
+    technique="TLA+ ProtoCore output-validity and binding predicates + TLC trace validation of real base-OT and random-VOLE runs (honest and single-leaf tampered) on a toy group",
+    text="Real endemic base OT (ecbbot) batches and random-VOLE multiplications (rvole/bbot) between honest parties on the toy group are validated by TLC: for every instance and block the receiver's "
+         "output equals the sender message selected by its choice bit, the two sender messages differ (61-bit field), c_k + d_k = a_k * b mod q exactly (q = 45971), and every honest run completes "
+         "(61-bit field); batch sizes 8-256, block lengths 1-4, all-zero / all-one / alternating / random choices, inputs 0, 1, -1 and random. The single-leaf deviation matrix over both protocols' "
+         "messages shows that altering the multiplier's check values (aTilde, eta, mu) makes Bob abort and that nothing crashes.",
+    note="PARTIAL: VSOT, the SoftSpoken OT extension and rvole/softspoken are curve-/binary-field-specific and not instantiable on the toy group; they are not decided by this check. Trusted: TLC, ProtoCore, the toy group.",
+    design_ref="DESIGN.md section 2, C09",
+)
+
 NOT_APPLICABLE = {
     "C13": "byte-level encode/decode fidelity of 256-381-bit curve elements: no state/transition structure and operands TLC cannot represent; a TLA+ specification would decide nothing (DESIGN.md section 3)",
 }
